@@ -2,6 +2,7 @@ package main
 
 import (
 	"fmt"
+	"sort"
 	"time"
 )
 
@@ -108,6 +109,50 @@ func x2Configs(prop, tier string) []*X2Config {
 			res = append(res, &X2Config{Name: prop + "/reload-append-to-replace+conc+delay", Cfgs: []PipeCfg{a, b}, Depth: depth(7, 8), Cancel: prop != "C05", Reload: true, Symmetry: true, AdvSteps: adv, Drain: prop != "C05",
 				Props: map[string]bool{"C01": prop == "C01", "C02": prop == "C01", "C03": prop == "C03", "C05": prop == "C05", "C06": prop == "C06"}})
 		}
+		if prop == "C02" || prop == "C15" {
+			// a reload that keeps the task names and rewires the dependencies (the reversed graph is acyclic too): jobs
+			// accepted afterwards follow the new graph - accepted, dependencies first, tasks listed after their dependencies
+			rev := func(g map[string][]string) map[string][]string {
+				r := map[string][]string{}
+				for t := range g {
+					r[t] = nil
+				}
+				for t, deps := range g {
+					for _, d := range deps {
+						r[d] = append(r[d], t)
+					}
+				}
+				for t := range r {
+					sort.Strings(r[t])
+				}
+				return r
+			}
+			for _, g := range []struct {
+				n string
+				g map[string][]string
+				d int
+			}{{"chain", graphChain, 5}, {"diamond+isolated", map[string][]string{"a": nil, "b": {"a"}, "c": {"a"}, "d": {"b", "c"}, "e": nil}, 3}} {
+				a := PipeCfg{Conc: 2, QL: -1, Graph: g.g} // concurrency 2: the job accepted after the reload starts next to the first one
+				b := PipeCfg{Conc: 2, QL: -1, Graph: rev(g.g)}
+				if g.n == "diamond+isolated" {
+					b.Graph["d"] = []string{"e"} // the formerly isolated task becomes the root: e -> d -> {b, c} -> a
+				}
+				res = append(res, &X2Config{Name: prop + "/reload-reverses-dependencies/" + g.n, Cfgs: []PipeCfg{a, b}, Depth: g.d, Reload: true, Symmetry: false, Drain: true, Props: props(prop)})
+			}
+		}
+		if prop == "C06" || prop == "C03" || prop == "C01" {
+			// saves with retention reorder the runner's job list (a removed job is replaced by the last one): from a state
+			// with one finished job, one running and three waiting, every history of saves, cancels, completions and requests
+			for _, conc := range []int{1, 2} {
+				pc := PipeCfg{Conc: conc, QL: -1, Graph: graphOne, RetCount: 1}
+				pre := []XEvent{{Kind: "S", P: "p"}, {Kind: "S", P: "p"}, {Kind: "S", P: "p"}, {Kind: "S", P: "p"}, {Kind: "S", P: "p"}, {Kind: "Dok", Job: 1, Task: "a"}}
+				if conc == 2 {
+					pre = append([]XEvent{{Kind: "S", P: "p"}}, pre...)
+				}
+				res = append(res, &X2Config{Name: fmt.Sprintf("%s/retention-reorders-job-list/conc%d", prop, conc), Cfgs: []PipeCfg{pc}, Prefix: pre, Depth: depth(4, 5), Cancel: true, Save: true, FailOK: true, Symmetry: false, Drain: true,
+					Props: map[string]bool{"C01": prop == "C01", "C02": prop == "C01", "C03": prop == "C03", "C06": prop == "C06"}})
+			}
+		}
 		if prop == "C01" {
 			// a reload that removes the pipeline and a later one that brings it back, with saves in between
 			with := mkDefs(map[string]PipeCfg{"p": {Conc: 1, QL: -1, Graph: graphOne}, "z": {Conc: 1, QL: -1, Graph: graphOne}})
@@ -204,7 +249,7 @@ func x2Configs(prop, tier string) []*X2Config {
 				continue
 			}
 			c.Name = "C15/" + c.Name
-			c.Props = props("C15ret")
+			c.Props = props("C15ret", "C15") // incl. the listing after a reload that removes pipeline q
 			c.LogDir = false
 			res = append(res, c)
 		}
